@@ -457,6 +457,14 @@ def invalid_args(N, M):
             out.append(("flips", [1] * pos + [unit] + [-1] * (N - pos - 1), "non-integer flip of absolute value one (%s)" % type(unit).__name__))
     if M >= 3:
         out.append(("clauses", [0, 1.5] + idc[2:], "non-integer position"))
+    if N >= 7:
+        # not permutations, although length, range, sum and sum of squares are those of one
+        out.append(("variables", [1, 1, 4, 5, 5, 6, 6] + idp[7:], "repeated images with the sum and square sum of a permutation"))
+        out.append(("variables", tuple(idp[:-7] + [v + N - 7 for v in (2, 2, 3, 3, 4, 7, 7)]), "repeated images with the sum and square sum of a permutation"))
+    if M >= 7:
+        out.append(("clauses", [0, 0, 3, 4, 4, 5, 5] + idc[7:], "repeated positions with the sum and square sum of a permutation"))
+    if N >= 4:
+        out.append(("variables", [2, 2] + idp[2:-2] + [N - 1, N - 1] if N > 4 else [1, 1, 4, 4], "repeated images with the sum of a permutation"))
     out.append(("clauses", idc + [M], "too long"))
     if M:
         out.append(("clauses", list(range(1, M + 1)), "1-based"))
@@ -470,8 +478,12 @@ def invalid_args(N, M):
 def case_invalid(ctx, rseed, count):
     from cnfgen.transformations.shuffle import Shuffle
     r = ctx.rng("c09inv", rseed)
-    for _ in range(count):
+    for it in range(count):
         N, cls = random_cnf(r, "tiny")
+        if it % 4 == 3:
+            # sizes at which multisets other than 1..N share its power sums
+            N = r.choice((7, 8, 9, 12))
+            cls = [[r.choice((1, -1)) * r.randint(1, N) for _ in range(r.randint(1, 3))] for _ in range(r.choice((7, 8, 11)))]
         M = len(cls)
         F = make_cnf(N, cls)
         for which, val, why in invalid_args(N, M):
